@@ -200,7 +200,8 @@ Definition fromtimestamp_utc (n : Z) : result dt :=
 (* a Python float: m * 2^e exactly, or not finite *)
 Inductive fl := FNan | FInf | FFin (m e : Z).
 
-(* int(float): truncation toward zero; ValueError on NaN, OverflowError on infinities *)
+(* int(float): truncation toward zero; ValueError on NaN, OverflowError on infinities
+   (no longer used by parse_iso; C07 models int(x) with it) *)
 Definition int_of_float (f : fl) : result Z :=
   match f with
   | FNan => Raise ValueError
@@ -208,21 +209,15 @@ Definition int_of_float (f : fl) : result Z :=
   | FFin m e => Ok (if 0 <=? e then m * 2 ^ e else Z.quot m (2 ^ (- e)))
   end.
 
-(* int(n / d) for Python ints n, d > 0 with |n| < 2^63: the true division is correctly
-   rounded to binary64 (round half to even), then int() truncates.  Magnitudes here are
-   far from the subnormal and overflow ranges. *)
-Definition truediv_trunc (n d : Z) : Z :=
-  if n =? 0 then 0 else
-  let a := Z.abs n in
-  let e0 := Z.log2 a - Z.log2 d - 53 in
-  let scaled (e : Z) := if e <? 0 then (a * 2 ^ (- e), d) else (a, d * 2 ^ e) in
-  let e := let '(nu, de) := scaled e0 in if 2 ^ 53 <=? nu / de then e0 + 1 else e0 in
-  let '(nu, de) := scaled e in
-  let q := nu / de in
-  let r := nu mod de in
-  let m := if (de <? 2 * r) || ((de =? 2 * r) && Z.odd q) then q + 1 else q in
-  let t := if 0 <=? e then m * 2 ^ e else m / 2 ^ (- e) in
-  if n <? 0 then - t else t.
+(* math.floor(float): the floor, exactly; ValueError on NaN, OverflowError on infinities
+   (math.floor of an int or a numpy.int64 is that integer) *)
+Definition floor_of (m e : Z) : Z := if 0 <=? e then m * 2 ^ e else m / 2 ^ (- e).
+Definition floor_of_float (f : fl) : result Z :=
+  match f with
+  | FNan => Raise ValueError
+  | FInf => Raise OverflowError
+  | FFin m e => Ok (floor_of m e)
+  end.
 
 (* ------------------------------------------------------------------ the string branch *)
 Fixpoint take_until (c : N) (v : list N) : list N :=   (* value.split(c)[0] *)
@@ -285,12 +280,16 @@ Definition parse_text (v0 : list N) : result (option dt) :=
   else Ok None.
 
 (* ------------------------------------------------------------------ inputs *)
-(* what numpy.datetime64.astype(datetime.datetime) returned (NumPy is a black box here) *)
-Inductive np_astype :=
-| AsNone                                   (* NaT *)
-| AsDate (y m d : Z)                       (* units Y M W D *)
-| AsDatetime (y m d h mi s us : Z)         (* units h m s ms us, in range *)
-| AsInt (n : Z).                           (* units ns and finer, or outside datetime's range *)
+(* what int(value.astype("datetime64[s]").astype(numpy.int64)) gave (NumPy is a black box
+   here): whole seconds since the epoch - NaT comes out as the smallest int64 - or the
+   OverflowError NumPy raises when its unit conversion overflows *)
+Inductive np_conv := NpSecs (n : Z) | NpOverflow.
+
+(* what value.to_pydatetime() returned, for any other object that has the attribute *)
+Inductive topy :=
+| ToDatetime (y m d h mi s us : Z)         (* datetime.datetime exactly (pandas.Timestamp) *)
+| ToDate (y m d : Z)                       (* datetime.date exactly *)
+| ToOther.                                 (* anything else, e.g. pandas.NaT gives NaT *)
 
 Inductive value :=
 | VInt (n : Z)                             (* type int exactly *)
@@ -301,8 +300,8 @@ Inductive value :=
 | VBytes (b : list N)                      (* bytes and subclasses (isinstance) *)
 | VDate (y m d : Z)                        (* datetime.date exactly *)
 | VDatetime (y m d h mi s us : Z)          (* datetime.datetime exactly, naive or aware *)
-| VNpDatetime64 (a : np_astype)
-| VToPy (r : option dt)                    (* any other object with a to_pydatetime attribute, and what calling it returned *)
+| VNpDatetime64 (c : np_conv)
+| VToPy (r : topy)                         (* any other object with a to_pydatetime attribute *)
 | VOther.                                  (* None, bool, other numpy scalars, str / datetime subclasses, bytearray, containers, object() ... *)
 
 Definition epoch_branch (n : Z) : result (option dt) :=
@@ -319,12 +318,12 @@ Definition parse_iso_body (x : value) : result (option dt) :=
                 end
   | VStr s => str_branch s
   | VInt n | VNpInt64 n => epoch_branch n
-  | VFloat f | VNpFloat64 f => do n <- int_of_float f; epoch_branch n
-  | VNpDatetime64 AsNone => Ok None
-  | VNpDatetime64 (AsDate y m d) => Ok (Some (y, m, d, 0, 0, 0, 0))
-  | VNpDatetime64 (AsDatetime y m d h mi s us) => Ok (Some (y, m, d, h, mi, s, 0))
-  | VNpDatetime64 (AsInt n) => epoch_branch (truediv_trunc n 1000000000)
-  | VToPy r => Ok r
+  | VFloat f | VNpFloat64 f => do n <- floor_of_float f; epoch_branch n
+  | VNpDatetime64 (NpSecs n) => epoch_branch n
+  | VNpDatetime64 NpOverflow => Raise OverflowError
+  | VToPy (ToDatetime y m d h mi s us) => Ok (Some (y, m, d, h, mi, s, 0))
+  | VToPy (ToDate y m d) => Ok (Some (y, m, d, 0, 0, 0, 0))
+  | VToPy ToOther => Ok None
   | VDatetime y m d h mi s us => Ok (Some (y, m, d, h, mi, s, 0))
   | VDate y m d => Ok (Some (y, m, d, 0, 0, 0, 0))
   | VOther => Ok None
@@ -411,9 +410,8 @@ Definition not_minus (sf : suffix) : bool := match sf with SMinus _ _ _ => false
 (* a valid calendar date-time with whole seconds *)
 Definition valid_dt (t : dt) : bool :=
   let '(y, m, d, h, mi, s, us) := t in valid_date y m d && valid_time h mi s && (us =? 0).
-(* int() of the float m * 2^e (toward zero) and its floor *)
-Definition trunc_of (m e : Z) : Z := if 0 <=? e then m * 2 ^ e else Z.quot m (2 ^ (- e)).
-Definition floor_of (m e : Z) : Z := if 0 <=? e then m * 2 ^ e else m / 2 ^ (- e).
+(* whole seconds of the instant i * num / den seconds after the epoch (datetime64 of a fixed-length unit) *)
+Definition instant_floor (num den i : Z) : Z := (i * num) / den.
 
 (* the positional shape test of parse_core, as a predicate on the stripped value *)
 Definition shape_ok (v : list N) : bool :=
